@@ -552,12 +552,19 @@ def check(repo: Repo, run: Run) -> None:
                 # layout leaves read by this field (value dependence only)
                 from ..decoders import strip_conditions
                 leaves = set()
+                def _member(t):
+                    # a parsed Container gives its fields as attributes and as items: flags.has_x and flags['has_x']
+                    if t.op == "attr":
+                        return t.a[1]
+                    if t.op == "sub" and t.a[1].op == "const" and isinstance(t.a[1].a[0], str):
+                        return t.a[1].a[0]
+                    return None
                 for x in sym.walk(_drop_selectors(strip_conditions(fv))):
-                    if x.op == "attr":
+                    if _member(x) is not None:
                         path = []
                         cur = x
-                        while cur.op == "attr" and cur != parsed:
-                            path.append(cur.a[1])
+                        while _member(cur) is not None and cur != parsed:
+                            path.append(_member(cur))
                             cur = cur.a[0]
                         if cur == parsed and path:
                             leaves.add(".".join(reversed(path)))
